@@ -345,6 +345,20 @@ def impl_frac_rows(rows):
 
 
 # ---------------------------------------------------------------------------------------------------------------
+def _flat4(x):
+    """(a, b, (num, den), s) in whatever nesting the parser / the worker gives -> [a, b, num, den, s]"""
+    out = []
+
+    def rec(y):
+        if isinstance(y, (list, tuple)):
+            for z in y:
+                rec(z)
+        else:
+            out.append(int(y))
+    rec(x)
+    return out
+
+
 def model_vals(ctx, tag, exprs, **kw):
     """Model values, one per expression; a list of None when the model no longer evaluates (recorded in ctx.proof_broken by
     safe_coq_eval): the model comparison of each case is then skipped, the validity oracles on the implementation's output stay."""
@@ -639,6 +653,53 @@ def run(ctx, scratch):
             if v is not None and got != v:
                 ctx.violation('split_dendrogram', 'implementation differs from the model', case=dict(rows=D, shape=[n1, n2]),
                               expected=v, observed=r, kind='model_mismatch')
+
+        # ---- the statements regenerated from postprocess.py:split_dendrogram (Gen/PySplit.v, theorem source_split_dendrogram_is_model)
+        #      run inside Coq on the same dendrograms: same rows as the implementation
+        src_prelude = '''
+From Coq Require Import String.
+Local Open Scope string_scope.
+Definition qq2 (q : Q) : Z * Z := (Qnum q, Zpos (Qden q)).
+Definition dec_nat2 (v : val) : nat := match v with VInt z => Z.to_nat z | _ => 0 end.
+Definition dec_row2 (v : val) : nat * nat * (Z * Z) * nat :=
+  match v with VList [a; b; VNum h; s] => (dec_nat2 a, dec_nat2 b, qq2 h, dec_nat2 s) | _ => (0, 0, (0%Z, 1%Z), 0) end.
+Definition src_split (D : dendrogram) (n1 n2 : nat) :=
+  match exec src_split_dendrogram (env_of [("dendrogram", embD D); ("shape", VList [vnat n1; vnat n2])]) with
+  | POk e => match e "dendrogram_row", e "dendrogram_col" with
+             | Some (VList r), Some (VList c) => (0, map dec_row2 r, map dec_row2 c)
+             | _, _ => (6, [], [])
+             end
+  | PErr PKeyError => (3, [], []) | PErr PIndexError => (2, [], []) | PErr PValueError => (1, [], [])
+  | PErr PTypeError => (4, [], []) | PErr PUnbound => (5, [], [])
+  end.
+'''
+        svals = safe_coq_eval(ctx, 'c07src', IMPORTS + ['Model.PyImp', 'Gen.PySplit', 'Proofs.PyCutsProofs'],
+                              ['src_split %s %d %d' % (cdend(D), n1, n2) for (n1, n2, D) in sp], prelude=src_prelude, shard=100)
+        n_src = 0
+        for (n1, n2, D), sv in zip(sp, svals or []):
+            r = impl.call('c07', 'split', dict(rows=[[a, b, float(h), s] for a, b, h, s in D], shape=[n1, n2]))
+            ctx.traces += 1
+            n_src += 1
+            code = sv[0]
+            if code in (4, 5, 6):
+                if len(ctx.proof_broken) < 12:
+                    ctx.proof_broken.append('the statements regenerated from split_dendrogram do not run under the semantics of '
+                                            'Model/PyImp.v (code %d) on %r' % (code, (n1, n2, D)))
+                continue
+
+            def conv2(info):
+                return [(int(x[0]), int(x[1]), (Fraction(x[2]).numerator, Fraction(x[2]).denominator), int(x[3])) for x in info['rows']]
+            if 'ok' in r:
+                got = (conv2(r['ok']['row']), conv2(r['ok']['col']))
+                exp = ([tuple(x[:2]) + (tuple(x[2]), x[3]) for x in sv[1]], [tuple(x[:2]) + (tuple(x[2]), x[3]) for x in sv[2]]) if code == 0 else None
+                if exp is None or [list(map(_flat4, got[0])), list(map(_flat4, got[1]))] != [list(map(_flat4, exp[0])), list(map(_flat4, exp[1]))]:
+                    ctx.violation('split_dendrogram', 'the implementation differs from the statements regenerated from its own source '
+                                  '(run under the semantics of Model/PyImp.v)', case=dict(rows=D, shape=[n1, n2]), expected=sv, observed=r,
+                                  kind='source_term_mismatch')
+            elif code == 0:
+                ctx.violation('split_dendrogram', 'the implementation raises where the statements regenerated from its own source return',
+                              case=dict(rows=D, shape=[n1, n2]), expected=sv, observed=r, kind='source_term_mismatch')
+        ctx.extra['source_terms_evaluated'] = ctx.extra.get('source_terms_evaluated', 0) + n_src
 
         # =====================================================================================================
         # 3. CORRESPONDENCE: Paris
